@@ -177,6 +177,9 @@ class Context:
         self.exported_vars: set[str] = set()
         self.name = name
         self.globals_keys = set() if globals is None else set(globals)
+        # The template's globals themselves. parent merges render
+        # variables over them, so it can't be used to look them up.
+        self._globals: t.Mapping[str, t.Any] = {} if globals is None else globals
 
         # create the initial mapping of blocks.  Whenever template inheritance
         # takes place the runtime will update this mapping with the new blocks
@@ -316,6 +319,8 @@ class Context:
             self.environment, self.name, {}, self.get_all(), True, None, locals
         )
         context.eval_ctx = self.eval_ctx
+        context.globals_keys = self.globals_keys
+        context._globals = self._globals
         context.blocks.update((k, list(v)) for k, v in self.blocks.items())
         return context
 
